@@ -202,6 +202,7 @@ pub proof fn lemma_trailer_frames_push(t: Seq<u8>, f: Seq<u8>)
 
 def build():
     u = Unit('webclient', ['C17'])
+    u.fn_guard('tonic-web/src/call.rs', 'internal_error', 'fn internal_error(e: impl std::fmt::Display) -> Status { Status::internal(format!("tonic-web: {}", e)) }', why='A-tonic-web-00')
     u.prelude('base.rs', 'wire.rs', 'bytes.rs')
     u.raw(SHIMS)
     u.raw(WALK)
